@@ -283,6 +283,9 @@ func coldRun(epJSON, planJSON, fixPath, sitesPath, refJSON string) {
 	if o.Shared != shared0 {
 		out.Viol = append(out.Viol, Violation{Property: "C15", Oracle: "shared-input-modified", Where: "cold scheduled run", Detail: "a caller-owned shared input changed", Signature: "shared-input-modified:cold"})
 	}
+	if o.Changed != "" {
+		out.Viol = append(out.Viol, Violation{Property: "C15", Oracle: "returned-value-rewritten", Where: "cold scheduled run", Detail: "a string/slice returned by " + o.Changed + " was rewritten after it was returned", Signature: "returned-value-rewritten:" + o.Changed})
+	}
 	// afterwards the same process must still give the stand-alone answers
 	order := make([]int, n)
 	for i := range order {
